@@ -25,10 +25,10 @@ import vlib
 THEOREMS = [
     "prefix_monotone", "streamOp_streaming", "limitOp_streaming", "stream_chain_prefix",
     "err_propagates_partial", "err_propagates_unsound", "no_partial_ok",
-    "panic_reads_as_end_of_stream", "panic_never_reported", "panic_propagates_unsound",
-    "panic_witnesses_partial_ok",
+    "panic_propagates_partial", "panic_reported_regression", "panic_propagates_unsound",
+    "panic_witnesses_regression",
     "dml_atomic", "dml_atomic_at_root_unsound", "dml_all_or_nothing",
-    "dml_atomic_on_silent_end_unsound",
+    "dml_atomic_on_silent_end", "dml_silent_end_regression",
     "delivery_complete", "delivery_incomplete_witness",
 ]
 
